@@ -341,7 +341,7 @@ def run(tier, seed):
     rng = random.Random(seed)
     thorough = tier == 'thorough'
     cfg = 'SPECIFICATION Spec\nCONSTANTS\n MaxCalls = %d\n' + ''.join('INVARIANT %s\n' % i for i in INVS) + 'CHECK_DEADLOCK FALSE\n'
-    for label, full, mc in (('every call shape', True, 1), ('interleaved deferreds', False, 3)):
+    for label, full, mc in (('every call shape', True, 2 if thorough else 1), ('interleaved deferreds', False, 4 if thorough else 3)):
         extra = {'ObjectsData.tla': data_module(full), 'o.cfg': cfg % mc}
         res, g = tlc.dump_graph('Objects', 'o.cfg', extra=extra, timeout=600)
         chk.tlc_stats(res, 'Objects: ' + label)
@@ -349,8 +349,8 @@ def run(tier, seed):
             chk.violation('model: Objects(%s) %s %s' % ((label,) + res.violation), dict(kind='TLC', trace=repr(res.trace[-2:])))
         chk.notes[label + ' graph'] = [len(g.nodes), g.nedges]
         paths = list(core.edge_cover_paths(g))
-        if len(paths) > (30000 if thorough else 5000):
-            paths = rng.sample(paths, 30000 if thorough else 5000)
+        if len(paths) > (60000 if thorough else 5000):
+            paths = rng.sample(paths, 60000 if thorough else 5000)
         core.replay_paths(chk, g, paths, lambda acts: ObjectsDriver(), label + ' edges', 'c10', {})
         if not full:
             core.replay_paths(chk, g, list(core.random_walks(g, 3000 if thorough else 600, 9, rng)), lambda acts: ObjectsDriver(),
@@ -358,7 +358,7 @@ def run(tier, seed):
     # code -> spec: longer random call streams over the full call space with Deferreds firing at random
     space = call_space(True)
     batch = []
-    for _ in range(300 if thorough else 60):
+    for _ in range(3000 if thorough else 60):
         drv = ObjectsDriver()
         tr = [({'n': 'Init'}, drv.project())]
         try:
